@@ -127,6 +127,11 @@ def run(chk):
             have_mem = False
             for _ in range(3 + rng.below(8)):
                 o = rng.choice(['setp:P1', 'setp:PBAD', 'jitx', 'jitx', 'x', 'xj'])
+                if rng.chance(1, 4):
+                    # memory handed over early (for a later compilation), also when the VM still holds some: code already
+                    # compiled must keep running from where it is
+                    ops.append('setx')
+                    have_mem = True
                 if o == 'jitx':
                     if not have_mem:
                         ops.append('setx')
@@ -145,6 +150,7 @@ def run(chk):
             for h in (['setp:PH', 'helper:1:' + a, 'jit', 'xj', 'helper:1:' + b, 'xj', 'jit', 'xj', 'x'],
                       ['helper:1:' + a, 'setp:PH', 'jit', 'helper:1:' + b, 'jit', 'xj', 'setp:P2', 'xj', 'jit', 'xj'],
                       ['setp:PH', 'helper:1:' + a, 'setx', 'jitx', 'xj', 'helper:1:' + b, 'setx', 'jitx', 'xj'],
+                      ['setp:PH', 'helper:1:' + a, 'setx', 'jitx', 'xj', 'setx', 'xj', 'helper:1:' + b, 'xj', 'jitx', 'xj', 'setx', 'setx', 'xj'],
                       ['setp:P1', 'jit', 'xj', 'jit', 'xj', 'setp:P2', 'jit', 'jit', 'xj', 'x']):
                 for kd in kinds4:
                     lines.append('api %s new:none;%s' % (kd, ';'.join(C10.op_line(o) for o in h)))
